@@ -71,6 +71,16 @@ def _run(ctx):
             if set(ats) == {Fe, H}:
                 eq(ctx, "R1", f"by {mode}: quantities scaled by {float(scale_q):g} give the same proportions",
                    ats[Fe] / a[0] * unit(M1, d[0]) * 2, ats[H] / 2 * unit(M3, d[2]) * 3, site)
+        # very unequal quantities: a trace component is still a component
+        for big, small in ((sp.Integer(1), sp.Rational(1, 10 ** 12)), (sp.Integer(10) ** 6, sp.Rational(1, 10 ** 9))):
+            f1, f2, f3 = comps()
+            rs = I.call(hf, [[(f1, big), (f3, small)]], {})
+            ats = I.getattr(rs, "atoms")
+            ctx.check(set(ats) == {Fe, H}, "R1", f"by {mode}: quantities {float(big):g} and {float(small):g} keep the trace component",
+                      f"atoms {sorted(map(repr, ats))}", site)
+            if set(ats) == {Fe, H}:
+                eq(ctx, "R1", f"by {mode}: quantities {float(big):g} and {float(small):g} give that proportion",
+                   ats[Fe] / a[0] * unit(M1, d[0]) * small, ats[H] / 2 * unit(M3, d[2]) * big, site)
         f1, f2, f3 = comps()
         r = I.call(hf, [[(f1, q[0]), (f2, q[1]), (f3, q[2])]], {})
         at = I.getattr(r, "atoms")
@@ -128,7 +138,7 @@ def _run(ctx):
     rr = raises(lambda: I.call(I.global_name("formulas", "_mix_by_volume_pairs"), [[(f1, q[0]), (f2, q[1])]], {}))
     ctx.check(rr == "ValueError", "R1", "by volume: unknown component density raises ValueError", f"got {rr}",
               fsite(ctx, "formulas._mix_by_volume_pairs"))
-    ctx.floor("R1", 30)
+    ctx.floor("R1", 38)
 
     # ---- R2 call forms and string forms reach the same helpers ---------------------
     cg = ctx.src.callgraph()
